@@ -2,6 +2,7 @@ package main
 
 import (
 	"fmt"
+	"reflect"
 	"strings"
 
 	psa "github.com/veraison/psatoken"
@@ -229,16 +230,44 @@ func othersEqual(a, b obsRes, g int) (bool, string) {
 	return true, ""
 }
 
-func runHistory(r *Run, class string, p int, ops []SetOp) {
-	c, err := psa.NewClaims(canonOf(p))
-	if err != nil {
-		panic(err)
+func runHistory(r *Run, class string, p int, ops []SetOp) { runHistoryOn(r, class, p, ops, nil, nil) }
+
+// histStart: an object a history starts from instead of a fresh claims-set (built field by field, or decoded)
+type histStart struct {
+	desc  ClaimsDesc
+	mk    func() psa.IClaims
+	valid bool
+}
+
+// runHistoryOn: mk == nil: a fresh claims-set of the built-in profile p (also run through the model); otherwise the
+// objects come from mk (an extension type embedding the built-in one, encoded through psatoken/encoding) and the
+// history is judged on the implementation alone.
+func runHistoryOn(r *Run, class string, p int, ops []SetOp, mk func() psa.IClaims, st *histStart) {
+	fresh := func() psa.IClaims {
+		if mk != nil {
+			return mk()
+		}
+		c, err := psa.NewClaims(canonOf(p))
+		if err != nil {
+			panic(err)
+		}
+		return c
+	}
+	c := fresh()
+	if st != nil {
+		c = st.mk()
 	}
 	strs := make([]string, len(ops))
 	for i, o := range ops {
 		strs[i] = o.String()
 	}
 	line := fmt.Sprintf("hist p=%d ops=%s", p, strings.Join(strs, "|"))
+	if mk != nil {
+		line = "ext-" + line
+	}
+	if st != nil {
+		line = fmt.Sprintf("hist p=%d start=%s ops=%s", p, strings.ReplaceAll(st.desc.Line(), " ", "&"), strings.Join(strs, "|"))
+	}
 	res := make([]string, len(ops))
 	lastOK := map[string]SetOp{}
 	var order []string
@@ -282,9 +311,54 @@ func runHistory(r *Run, class string, p int, ops []SetOp) {
 		}
 	}
 	final := snap(c)
-	r.Case(class, false, line, "r="+strings.Join(res, ",")+" final="+strings.ReplaceAll(final.desc, " ", ";")+" "+final.obs.String())
+	if mk != nil {
+		r.ImplOnly(class, false, line)
+	} else {
+		r.Case(class, false, line, "r="+strings.Join(res, ",")+" final="+strings.ReplaceAll(final.desc, " ", ";")+" "+final.obs.String())
+	}
 	for _, f := range fails {
 		r.FailSig(f.clause, f.detail, f.sig)
+	}
+	if st != nil {
+		// a history on an object that already held values: when the result validates, it is observably the
+		// claims-set built from its final values by setter calls on a fresh object (the encoding depends only on
+		// the values held, not on how they got there)
+		if final.obs.VErr == nil {
+			// (a no-measurements flag other than 1 is a value no setter produces)
+			if fd, ok := DescOf(c); ok && !hasBadUTF8(&fd) && (fd.NoSw == nil || *fd.NoSw == 1) {
+				c2 := fresh()
+				// the profile claim is not reachable by a setter: as held
+				for _, f := range []string{"Profile", "CanonicalProfile"} {
+					reflect.ValueOf(c2).Elem().FieldByName(f).Set(reflect.ValueOf(c).Elem().FieldByName(f))
+				}
+				okAll := true
+				for _, o := range historyOf(&fd) {
+					if e := o.Apply(c2); e != nil {
+						okAll = false
+						r.Fail("replay-last", fmt.Sprintf("value %s held by a claims-set that validates is refused by its setter: %v", o, e))
+					}
+				}
+				if canon := snap(c2); okAll && canon.String() != final.String() {
+					what, a, b := "getters", final.obs.String(), canon.obs.String()
+					if a == b {
+						what, a, b = "cbor", final.cbor, canon.cbor
+					}
+					if a == b {
+						what, a, b = "json", final.json, canon.json
+					}
+					i := 0
+					for i < len(a) && i < len(b) && a[i] == b[i] {
+						i++
+					}
+					lo := i - 40
+					if lo < 0 {
+						lo = 0
+					}
+					r.Fail("order-independence", fmt.Sprintf("claims-set reached from a pre-loaded object differs from the one built from the same values by setters (%s): …%s | …%s", what, trunc(a[lo:], 160), trunc(b[lo:], 160)))
+				}
+			}
+		}
+		return
 	}
 	// all mandatory claims set successfully (and not cleared) => validates
 	mand := []string{"cid", "lc", "impl", "sw", "nonce", "inst"}
@@ -302,7 +376,7 @@ func runHistory(r *Run, class string, p int, ops []SetOp) {
 		r.Fail("all-mandatory-set-validates", fmt.Sprintf("every mandatory claim was set successfully, Validate() = %v", final.obs.VErr))
 	}
 	// the encoding depends only on the final values: replay the last accepted value per claim on a fresh object
-	c2, _ := psa.NewClaims(canonOf(p))
+	c2 := fresh()
 	for _, k := range []string{"vsi", "sw", "inst", "cert", "nonce", "cid", "boot", "lc", "impl"} {
 		if o, ok := lastOK[k]; ok {
 			if e := o.Apply(c2); e != nil {
@@ -369,6 +443,80 @@ func runC11(r *Run, rng *Rng, thorough bool) {
 				h[j], h[k] = h[k], h[j]
 			}
 			runHistory(r, fmt.Sprintf("p%d/permuted-valid", p), p, h)
+		}
+		// histories on objects that already hold values: built field by field (any state, invalid ones included) or
+		// decoded from CBOR / JSON; the setters' contract does not depend on what the claims-set holds
+		for i := 0; i < nHist/2; i++ {
+			d := baseValid(rng, p)
+			if i%3 == 0 {
+				Pick(rng, deviations(p, false)).apply(&d)
+			}
+			normalise(&d)
+			if hasBadUTF8(&d) || hasNilComp(&d) || d.ProfInvalid {
+				continue
+			}
+			st := &histStart{desc: d, valid: conformant(&d)}
+			kind := []string{"built", "cbor", "json"}[i%3]
+			switch kind {
+			case "built":
+				dd := d
+				st.mk = func() psa.IClaims { return dd.Build() }
+			default:
+				var b []byte
+				var err error
+				if kind == "cbor" {
+					b, err = psa.EncodeClaimsToCBOR(d.Build())
+				} else {
+					b, err = psa.EncodeClaimsToJSON(d.Build())
+				}
+				if err != nil {
+					continue
+				}
+				dec := func() psa.IClaims {
+					var c psa.IClaims
+					var e error
+					if kind == "cbor" {
+						c, e = psa.DecodeClaimsFromCBOR(b)
+					} else {
+						c, e = psa.DecodeClaimsFromJSON(b)
+					}
+					if e != nil {
+						return nil
+					}
+					return c
+				}
+				c0 := dec()
+				if c0 == nil {
+					continue
+				}
+				dd, ok := DescOf(c0)
+				if !ok || dd.P != p {
+					continue
+				}
+				st.desc, st.mk, st.valid = dd, dec, conformant(&dd)
+			}
+			n := 1 + rng.Intn(6)
+			ops := make([]SetOp, n)
+			for j := range ops {
+				ops[j] = randomOp(rng, p, pool)
+			}
+			runHistoryOn(r, fmt.Sprintf("p%d/preloaded-%s", p, kind), p, ops, nil, st)
+		}
+		// the same on extension claims-sets (a type embedding the built-in one, encoded through psatoken/encoding):
+		// what a failed setter leaves behind in the embedded struct shows in the extension's encodings
+		mk := func() psa.IClaims { return ExtProfile{Name: canonOf(p), Base: p}.GetClaims() }
+		for i, o := range pool {
+			if thorough || i%3 == 0 {
+				runHistoryOn(r, fmt.Sprintf("ext-p%d/after-full/%s", p, o.Kind), p, append(append([]SetOp{}, full...), o), mk, nil)
+			}
+		}
+		for i := 0; i < nHist/4; i++ {
+			n := 1 + rng.Intn(30)
+			ops := make([]SetOp, n)
+			for j := range ops {
+				ops[j] = randomOp(rng, p, pool)
+			}
+			runHistoryOn(r, fmt.Sprintf("ext-p%d/history", p), p, ops, mk, nil)
 		}
 	}
 }
